@@ -210,7 +210,7 @@ def c03_core():
     add("or_not", Then(OrNot(Then(Just(0), Just(1))), OrNot(Any())), aims="optional prefix")
     add("rep", Rep(Just(0), P(1), P(2)), pre="t[1] <= t[2]", aims="repetition leaves an unconsumed tail => rejected")
     add("sep", Sep(Just(0), Just(1), K(0), INF, FP(2), FP(3)), aims="separated_by + trailing garbage")
-    add("lookahead", Then(Rewind(Then(Just(0), Any())), Then(Any(), Not(Just(1)))), aims="lookahead does not count as consumption")
+    add("lookahead", Then(Rewind(Then(Just(0), Any())), Then(Any(), Then(Not(Just(1)), Any()))), aims="lookahead does not count as consumption")
     add("lazy_seq", Lazy(Then(Just(0), Just(1))), aims="lazy(): accepts exactly the inputs of which g matches a prefix")
     add("lazy_choice", Lazy(Or(Then(Just(0), Just(1)), Just(2))), aims="lazy() over a choice")
     add("lazy_rep", Lazy(Rep(Just(0), P(1), K(2))), pre="t[1] <= 2", aims="lazy() over a bounded repetition")
@@ -362,6 +362,10 @@ def c06_core():
     add("just_seq", Or(Just2(0, 1), Then(Just(2), Just2(3, 4))), aims="just(sequence) failing at its k-th element")
     add("try_map_far", Or(Then(Just(0), TryMap(Any(), 1)), Then(Just(2), Just(3))),
         aims="a user error (try_map) raised at the furthest position is preserved")
+    add("try_map_inner_fails", Or(Then(Just(0), Just(1)), TryMap(Just(2), 3)),
+        aims="try_map whose INNER parser fails must leave the pending error of an earlier, deeper alternative in place")
+    add("try_map_ok_pending", Then(TryMap(Then(Just(0), OrNot(Just(1))), 2), Just(3)),
+        aims="try_map that SUCCEEDS must keep the error its inner parser left pending at that error's own position (union with the follower's failure)")
     add("custom_far", Or(Then(Just(0), Custom2(1)), Then(Any(), Just(2))),
         aims="a user error from custom at the furthest position is preserved")
     add("try_map_with", Or(TryMapWith(Then(Any(), Any()), 0), Then(Just(1), Just(2))), aims="try_map_with error position")
